@@ -492,10 +492,16 @@ func murmur64Section(inputs [][]byte, rng *vh.Rng) {
 		}
 		line := fmt.Sprintf("MP %d %s", n, vh.Hex(d))
 		var got uint64
+		before := string(d)
 		o := vh.Guard(func() { got = hll.MurmurHashLongByte(d, int32(n)) })
 		if !o.OK() {
 			failProp("murmur:panic", "MurmurHashLongByte panicked", replay{Op: line, Detail: o.Panic})
 			continue
+		}
+		if string(d) != before {
+			failProp("MurmurHashLongByte:writes-caller-memory", fmt.Sprintf("MurmurHashLongByte(data, %d) changed the %d-byte buffer it was given from %s to %s", n, len(d), vh.Clip(vh.Hex([]byte(before)), 80), vh.Clip(vh.Hex(d), 80)),
+				replay{Op: fmt.Sprintf("frame MurmurHashLongByte 0 %d %d long 2 %s", n, len(d)-n, vh.Hex([]byte(before)[:n]))})
+			copy(d, before)
 		}
 		if want := refMurmurHash64A(d[:n], defaultSeed); got != want {
 			failProp("MurmurHashLongByte:differs-from-MurmurHash64A", fmt.Sprintf("MurmurHashLongByte(%s,%d) = %d, MurmurHash64A gives %d", vh.Clip(vh.Hex(d), 40), n, got, want),
@@ -932,9 +938,17 @@ func ipSection(addrs []uint32) {
 		if m := mirrorDotted(a); m != s {
 			failProp("iputil:ToString-non-canonical-text", fmt.Sprintf("ToString(%v) = %q, the dotted quad of the address is %q", b, s, m), replay{Op: "IS " + vh.Hex(b), Impl: s, Model: m})
 		}
-		lines = append(lines, "IS "+vh.Hex(b), "IB "+vh.Hex([]byte(s)), fmt.Sprintf("II %d", int32(a)), "IT "+vh.Hex(b))
+		lines = append(lines, "IS "+vh.Hex(b), "IB "+vh.Hex([]byte(s)), fmt.Sprintf("II %d", int32(a)), "IT "+vh.Hex(b), "IO "+vh.Hex(b))
 		impls = append(impls, vh.Hex([]byte(s)), vh.Hex(iputil.ToBytes(s)),
-			vh.Hex(iputil.ToBytesFrInt(int32(a)))+" "+vh.Hex([]byte(iputil.ToStringFrInt(int32(a)))), fmt.Sprint(iputil.ToInt(b)))
+			vh.Hex(iputil.ToBytesFrInt(int32(a)))+" "+vh.Hex([]byte(iputil.ToStringFrInt(int32(a)))), fmt.Sprint(iputil.ToInt(b)),
+			fmt.Sprintf("%v %v", iputil.IsOK(b), iputil.IsNotLocal(b)))
+		// IsOK is the domain of the conversions: whatever ToBytes / ToBytesFrInt return satisfies it; IsNotLocal = first octet is not 127
+		if !iputil.IsOK(iputil.ToBytes(s)) || !iputil.IsOK(iputil.ToBytesFrInt(int32(a))) || !iputil.IsOK(b) {
+			failProp("iputil:IsOK-rejects-a-converted-address", fmt.Sprintf("IsOK is false on %v, ToBytes(%q) or ToBytesFrInt(%d)", b, s, int32(a)), replay{Op: "IO " + vh.Hex(b)})
+		}
+		if iputil.IsNotLocal(b) != (b[0] != 127) {
+			failProp("iputil:IsNotLocal-wrong", fmt.Sprintf("IsNotLocal(%v) = %v", b, iputil.IsNotLocal(b)), replay{Op: "IO " + vh.Hex(b)})
+		}
 	}
 	outs := runDriver(lines)
 	for i := range lines {
@@ -1147,6 +1161,10 @@ func runReplay(path string) {
 			firstOps = append(firstOps, strings.TrimPrefix(c.Op, "first-call "))
 			continue
 		}
+		if f[0] == "frame" || f[0] == "alias" {
+			replayFrame(c.Op)
+			continue
+		}
 		switch f[0] {
 		case "H", "h", "HS", "C":
 			if len(f) > 1 {
@@ -1171,6 +1189,10 @@ func runReplay(path string) {
 			l, _ := strconv.ParseInt(f[2], 10, 64)
 			s, _ := strconv.ParseInt(f[3], 10, 64)
 			bs = append(bs, bitIn{w, h, l, s})
+		case "IO":
+			ipOKCases([][]byte{vh.UnHex(f[1])})
+		case "HT":
+			hashToIntCases([][]byte{vh.UnHex(f[1])})
 		case "IS", "IT":
 			if b := vh.UnHex(f[1]); len(b) == 4 {
 				ips = append(ips, uint32(b[0])<<24|uint32(b[1])<<16|uint32(b[2])<<8|uint32(b[3]))
@@ -1209,6 +1231,7 @@ func main() {
 	rep.Rule = "hash inputs: every byte string of length ≤ 2 plus random strings (lengths 0..64 mostly, block-size boundaries, some 1–4 KiB, text-like, constant runs); " +
 		"a case is the canonical op line (function family + input); non-trivial = non-empty input (hashes), every integer (Hexa32: ±32^k±2, k=0..12, 3000 values at each extreme and around 0, the overflow-guard neighbourhood, random), " +
 		"Hexa32 boundaries: 32^k±2, 10·32^k±2, 31·32^k±2, 32·32^k±2, 33·32^k±2 for all k, both signs, MinInt64; the text of every explored number is compared with an independent reference encoder (prefix, alphabet 0-9a-v, no leading zero, minimal length) and the reference text is decoded; every (high, low, src) triple (bitutil: boundary×boundary, all byte pairs, random), every address (IPv4: boundaries + strided in quick, all 2^32 in thorough). " +
+		"Caller's memory: every function taking a byte slice is given its n input bytes (n = 0..40, block boundaries, 1000) as a window into a larger buffer (0/5 guard bytes before, 0/1/7/8/24 after; spare capacity, cap==len, or explicit length < len; three guard fills) and every (record length ≤ 40, prefix length) pair for the functions with a length parameter: the whole buffer must be unchanged and the value equal to that on an exactly sized copy; functions returning a slice: the result must not share memory with another call's result. " +
 		"Distinct = distinct canonical op lines (bulk sweeps beyond the first 400000 registered cases are distinct by construction and counted in extra.bulk_distinct)."
 	if env.Replay != "" {
 		runReplay(env.Replay)
@@ -1226,6 +1249,9 @@ func main() {
 	// 0. order dependence, first pass: boundary values and congruent families before anything else
 	twiceBegin(rng.Fork())
 	lap("order-first-pass")
+	// 0b. the caller's memory: windows into larger buffers, spare capacity, explicit lengths, returned slices
+	frameSection(rng.Fork())
+	lap("caller-memory")
 	// 1. CRC family
 	nHash, nBulk := 100000, 0
 	if env.Thorough {
@@ -1236,6 +1262,7 @@ func main() {
 		inputs = append(inputs, genBytes(rng))
 	}
 	hashNilSection()
+	hashToIntSection(rng.Fork())
 	hashSection(inputs)
 	if nBulk > 0 {
 		hashBulk(rng.Fork(), nBulk)
@@ -1322,6 +1349,7 @@ func main() {
 	lap("bitutil")
 	// 5. IPv4
 	ipSpecial()
+	ipOKSection(rng.Fork())
 	var addrs []uint32
 	for _, a := range []uint32{0, 1, 255, 256, 0x7f000001, 0x7fffffff, 0x80000000, 0xffffffff, 0xfffffffe, 0x0a000001, 0xc0a80101, 0x01020304, 0x64646464, 0x09090909, 0x0a0a0a0a, 0x63636363} {
 		addrs = append(addrs, a)
